@@ -35,6 +35,7 @@ NameCataloger::NameCataloger(SyntaxTree* tree)
     : SyntaxVisitor(tree)
     , catalog_(new NameCatalog)
     , withinTypedef_(false)
+    , withinFunctionDefinitionDeclarator_(false)
 {}
 
 std::unique_ptr<NameCatalog> NameCataloger::catalogNamesWithinNode(const SyntaxNode* node)
@@ -67,6 +68,59 @@ SyntaxVisitor::Action NameCataloger::visitTypedefDeclaration(const TypedefDeclar
     for (auto iter = node->declarators(); iter; iter = iter->next)
         visit(iter->value);
     withinTypedef_ = false;
+
+    return Action::Skip;
+}
+
+SyntaxVisitor::Action NameCataloger::visitFunctionDefinition(const FunctionDefinitionSyntax* node)
+{
+    for (auto iter = node->specifiers(); iter; iter = iter->next)
+        visit(iter->value);
+
+    // The name of the function belongs to the enclosing scope...
+    visit(node->declarator());
+
+    auto body = node->body()
+            ? node->body()->asCompoundStatement()
+            : nullptr;
+    if (!body) {
+        visit(node->body());
+        return Action::Skip;
+    }
+
+    // ...while its parameters share the scope of the outermost block of the
+    // body (6.2.1-4).
+    catalog_->indexNodeAndMarkAsEncloser(body);
+    withinFunctionDefinitionDeclarator_ = true;
+    visit(node->declarator());
+    withinFunctionDefinitionDeclarator_ = false;
+    for (auto iter = body->statements(); iter; iter = iter->next)
+        visit(iter->value);
+    catalog_->dropEncloser();
+
+    return Action::Skip;
+}
+
+SyntaxVisitor::Action NameCataloger::visitEnumeratorDeclaration(const EnumeratorDeclarationSyntax* node)
+{
+    const auto& name = node->identifierToken().valueText();
+    catalog_->catalogUseAsNonTypeName(name);
+    catalog_->catalogDefAsNonTypeName(name);
+
+    return Action::Visit;
+}
+
+SyntaxVisitor::Action NameCataloger::visitParameterSuffix(const ParameterSuffixSyntax* node)
+{
+    // The names of parameters have function prototype scope, unless they are
+    // those of a function definition.
+    if (!withinFunctionDefinitionDeclarator_)
+        return Action::Skip;
+
+    withinFunctionDefinitionDeclarator_ = false;
+    for (auto iter = node->parameters(); iter; iter = iter->next)
+        visit(iter->value);
+    withinFunctionDefinitionDeclarator_ = true;
 
     return Action::Skip;
 }
